@@ -213,6 +213,17 @@ def _apply(op, p, rec, psi, qubits, dims):
             new[tuple(sl0)] = part / np.sqrt(pr)
             out.append((p * pr, rec, new.reshape(-1)))
         return out
+    if type(op0).__name__ == "If":
+        # documented meaning of cirq.If: the sub-operation(s) under the classical conditions
+        conds = list(op0.classical_controls)
+        if all(_condition_true(c, rec) for c in conds):
+            sub = op0._sub_operation
+            subs = list(sub.circuit.all_operations()) if isinstance(sub, cirq.CircuitOperation) and sub.repetitions == 1 and not sub.qubit_map and not sub.measurement_key_map else [sub]
+            cur = [(p, rec, psi)]
+            for s_op in subs:
+                cur = [b for (pp, rr, ss) in cur for b in _apply(s_op, pp, rr, ss, qubits, dims)]
+            return cur
+        return [(p, rec, psi)]
     raise NotImplementedError(f"reference semantics for {op!r}")
 
 
